@@ -1389,8 +1389,10 @@ async def run_receive(ctx: Ctx, use_model: bool, quick: bool):
             elif how == "remove_by_address":
                 w.network.remove_by_address(peer.address)
 
-    for w in worlds:
+    for wi, w in enumerate(worlds):
         n = 0
+        w.network.reverse_ip_cache_size = [500, 0, 1][wi % 3]          # configuration sweep (oracle only in these worlds)
+        ctx.count(f"recv:config:reverse_ip_cache_size:{w.network.reverse_ip_cache_size}")
         for label, data in gen_datagrams(ctx, w, quick, orig_handlers, cls_descs):
             w.notify(data, label, src_obj=rng.choice(sources)() if n % 3 else None)
             n += 1
@@ -1518,10 +1520,17 @@ async def run_receive(ctx: Ctx, use_model: bool, quick: bool):
     w.add_inert()
     PP, DP = bytes(pc.get_prefix()), bytes(dc.get_prefix())
     addrs = [("10.0.0.%d" % i, 1000 + i) for i in range(1, 10)]
-    w.network.reverse_ip_cache_size = 3              # so that the LRU eviction path runs (default 500)
-    w.emit("net cap 3")
+    cache_sizes = [3, 0, 1, 2, 500]                  # configuration class: cache switched off / minimal / default
+    w.network.reverse_ip_cache_size = cache_sizes[0]
+    w.emit(f"net cap {cache_sizes[0]}")
     holders = lambda a: [q for q in w.network.verified_peers if tuple(a) in [tuple(v) for v in q.addresses.values()]]  # noqa: E731
-    for step in range(400 if quick else 3000):
+    n_steps = 500 if quick else 3000
+    for step in range(n_steps):
+        size = cache_sizes[step * len(cache_sizes) // n_steps]
+        if w.network.reverse_ip_cache_size != size:
+            w.network.reverse_ip_cache_size = size
+            w.emit(f"net cap {size}")
+        ctx.count(f"recv:config:reverse_ip_cache_size:{size}")
         for _ in range(rng.choice([1, 1, 2, 3])):
             op = rng.choice(["new", "new", "addv", "rmp", "rmp", "rma", "seta", "addv"])
             if op == "new" and len(w.peers) < 400:
@@ -1768,7 +1777,8 @@ async def run_transports(ctx: Ctx, use_model: bool, quick: bool):
             o = w.add_overlay(cls)
             bep = BroadcastBootstrapEndpoint(o)
             PP = bytes(o.get_prefix())
-            cases = [HDR_ANNOUNCE + PP, HDR_ANNOUNCE + PP[:10], HDR_ANNOUNCE, HDR_ANNOUNCE[:3], HDR_ANNOUNCE + PP + b"x", b""] + \
+            beacon = HDR_ANNOUNCE + PP
+            cases = [beacon[:k] for k in range(len(beacon) + 1)] + [beacon + b"x", HDR_ANNOUNCE[:-1] + b"\x01" + PP, b""] + \
                     [PP[:k] for k in range(0, 23, 3)] + \
                     [PP + bytes([m]) + rbytes(rng, k) for m in (1, 2, 3, 40, 60, 200, 246) for k in (0, 5)] + \
                     [rbytes(rng, k) for k in (1, 7, 30)]
@@ -1922,6 +1932,7 @@ recv:message-level:acc:accepted recv:message-level:rej:rejected recv:truncated-c
 recv:source-kind:UDPv6Address recv:source-kind:DomainAddress recv:gen:udp4 recv:gen:udp6 recv:gen:udp-not-running
 recv:reentrant-op:rm recv:reentrant-op:add recv:reentrant-op:close recv:network-op:rmp recv:network-op:rma
 recv:network-op:seta decode:value-checked-on-production-object exit:outcome:tunneled exit:outcome:dropped
+recv:config:reverse_ip_cache_size:0 recv:config:reverse_ip_cache_size:1 recv:config:reverse_ip_cache_size:500
 """.split()
 
 
